@@ -3,7 +3,7 @@
    The matrix statements hold over every commutative ring (in particular over the rationals, which
    contain every float64 value), for every number of molecules N and every exciton multiplicity. *)
 From Coq Require Import ZArith List Bool Arith Lia Permutation Field QArith Qcanon.
-From QV Require Import Base.Alg Base.Sums Base.Mat Model.C03 Proofs.C03 Proofs.C03_frenkel Proofs.C03_relabel.
+From QV Require Import Base.Alg Base.Sums Base.Mat Model.C03 Model.C03dd Proofs.C03 Proofs.C03_frenkel Proofs.C03_relabel Proofs.C03dd.
 Import ListNotations.
 Local Open Scope nat_scope.
 
@@ -190,6 +190,34 @@ Proof.
 Qed.
 Print Assumptions c03_dipole_dipole_prefactor_is_SI_for_debye_angstrom.
 
+(* Coupling matrix set from the geometry (set_coupling_by_dipole_dipole(epsr, delta) calling dipole_dipole_coupling for every
+   pair kk < ll and storing both elements): the matrix is symmetric, its diagonal is left as it was, every off-diagonal element
+   is the point-dipole formula of the two molecules' positions and transition dipoles with the relative permittivity that was
+   asked for, and a pair refused by dipole_dipole_coupling (closer than delta) gets zero in both elements. *)
+Theorem c03_dipole_dipole_coupling_matrix : forall (F : Type) (f0 f1 : F) (fadd fmul fsub : F -> F -> F)
+  (fopp : F -> F) (fdiv : F -> F -> F) (finv : F -> F),
+  field_theory f0 f1 fadd fmul fsub fopp fdiv finv (@eq F) ->
+  forall (pos dmom RRf : nat -> nat -> F) (close : nat -> nat -> bool) (pi eps0 : F) (J0 : nat -> nat -> F) (epsr : F),
+  let M := dd_matrix F f0 f1 fadd fmul fsub fdiv pos dmom RRf close pi eps0 J0 epsr in
+  let dot := fdot3 F fadd fmul in
+  (forall a b, a <> b -> M a b = M b a) /\
+  (forall a, M a a = J0 a a) /\
+  (forall a b, a < b -> close a b = false ->
+     RRf a b <> f0 -> pi <> f0 -> eps0 <> f0 -> epsr <> f0 -> fadd f1 f1 <> f0 ->
+     let n := fun c => fdiv (fsub (pos a c) (pos b c)) (RRf a b) in
+     M a b = fdiv (fsub (dot (dmom a) (dmom b)) (fmul (fmul (f3 F f1 fadd) (dot (dmom a) n)) (dot (dmom b) n)))
+                  (fmul (fmul (fmul (fmul (f4 F f1 fadd) pi) eps0) epsr) (fmul (fmul (RRf a b) (RRf a b)) (RRf a b)))) /\
+  (forall a b, a < b -> close a b = true -> M a b = f0 /\ M b a = f0).
+Proof.
+  intros F f0 f1 fadd fmul fsub fopp fdiv finv Fth pos dmom RRf close pi eps0 J0 epsr M dot.
+  split; [intros a b Hab; exact (dd_matrix_sym F f0 f1 fadd fmul fsub fdiv pos dmom RRf close pi eps0 J0 epsr a b Hab)|].
+  split; [intros a; exact (dd_matrix_diag F f0 f1 fadd fmul fsub fdiv pos dmom RRf close pi eps0 J0 epsr a)|].
+  split; [intros a b Hab Hc H1 H2 H3 H4 H5;
+          exact (dd_matrix_formula F f0 f1 fadd fmul fsub fopp fdiv finv Fth pos dmom RRf close pi eps0 J0 epsr a b Hab Hc H1 H2 H3 H4 H5)|].
+  intros a b Hab Hc. exact (dd_matrix_refused F f0 f1 fadd fmul fsub fdiv pos dmom RRf close pi eps0 J0 epsr a b Hab Hc).
+Qed.
+Print Assumptions c03_dipole_dipole_coupling_matrix.
+
 (* ---------------- non-vacuity ---------------- *)
 Example c03_example_states :
   elsigs [1; 1; 1] 2 = [[0;0;0]; [1;0;0]; [0;1;0]; [0;0;1]; [1;1;0]; [1;0;1]; [0;1;1]] /\
@@ -217,3 +245,4 @@ Qed.
 
 (* the field hypotheses of the dipole-dipole theorems are satisfiable: the rationals *)
 Example c03_example_field := c03_dipole_dipole_is_point_dipole_formula Qc (Q2Qc 0) (Q2Qc 1) Qcplus Qcmult Qcminus Qcopp Qcdiv Qcinv Qcft.
+Example c03_example_dd_matrix := c03_dipole_dipole_coupling_matrix Qc (Q2Qc 0) (Q2Qc 1) Qcplus Qcmult Qcminus Qcopp Qcdiv Qcinv Qcft.
